@@ -267,6 +267,20 @@ def requests():
                                                                  B_length_pd_n=8))
     add("sph+cyl/pd-B5", model="sphere+cylinder", q=Q3, pars=dict(mix, A_radius_pd=0.1, A_radius_pd_n=10, B_length_pd=0.2,
                                                                  B_length_pd_n=5))
+    # sums of models with magnetic terms on a detector image (both terms, or only the second)
+    add("sph+cyl/mag2d", model="sphere+cylinder", q=QXY, tag="mag",
+        pars=dict(mix, B_theta=50.0, B_phi=15.0, A_sld_M0=1.5, A_sld_mtheta=20.0, A_sld_mphi=35.0, B_sld_M0=-2.0, B_sld_mtheta=60.0,
+                  up_frac_i=0.3, up_frac_f=0.7, up_theta=80.0))
+    add("sph+cyl/mag2d-B", model="sphere+cylinder", q=QXY, tag="mag",
+        pars=dict(mix, B_theta=50.0, B_phi=15.0, B_sld_solvent_M0=1.2, B_sld_solvent_mphi=25.0, up_frac_i=0.6, up_frac_f=0.4,
+                  up_theta=70.0))
+    # products with form factors that have different numbers of parameters
+    add("sph@hs/ck", model="sphere@hardsphere", q=Q3,
+        pars={"radius": 40.0, "sld": 1.0, "sld_solvent": 6.0, "scale": 1.0, "background": 0.01, "volfraction": 0.2,
+              "radius_effective": 45.0, "radius_effective_mode": 0, "structure_factor_mode": 0})
+    add("css@hs/ck", model="core_shell_sphere@hardsphere", q=Q3,
+        pars={"radius": 30.0, "thickness": 12.0, "sld_core": 1.0, "sld_shell": 2.5, "sld_solvent": 6.0, "scale": 0.9,
+              "background": 0.02, "volfraction": 0.25, "radius_effective_mode": 1, "structure_factor_mode": 0})
     sw = {"radius": 40.0, "sld": 1.0, "sld_solvent": 6.0, "scale": 1.0, "background": 0.0, "volfraction": 0.2,
           "welldepth": 1.2, "wellwidth": 1.3, "radius_effective": 45.0, "radius_effective_pd": 0.2,
           "radius_effective_pd_n": 8, "structure_factor_mode": 0}
@@ -640,6 +654,11 @@ def gen_history(rng, reqs, h):
     ops += [["eval", "guinier/subnormal"], ["other_precision", ["sphere", "guinier", "cylinder"][h % 3]], ["eval", "guinier/subnormal"],
             ["eval", "sphere/tiny-scale"], ["eval", "sphere/Iqxy-res"], ["eval", "sphere/Iqxy-res"], ["eval", "cylinder/Iqxy-res"],
             ["eval", "sphere/Iq-res"], ["eval", "sphere/direct2d-res"], ["eval", "sphere/direct2d-res"]]
+    # magnetic requests on the kernel object of a sum of models, repeated and interleaved with non-magnetic ones
+    ops += [["eval", "sph+cyl/mag2d"], ["eval", "sph+cyl/mag2d"], ["eval", "sph+cyl/2d"], ["eval", "sph+cyl/mag2d-B"],
+            ["eval", "sph+cyl/mag2d"], ["eval", "sph+cyl/mag2d-B"]]
+    # products with different form factors built, evaluated once and dropped, several times over
+    ops += [["churn", ""], ["eval", "cyl@hs/mode0"], ["eval", "sph@hs/ck"]]
     if h % 2:
         ops += [["release_kernel", "cylinder"], ["eval", "cylinder/2d-samex"], ["eval", "cylinder/2d"],
                 ["eval", "cylinder/2d-samey"], ["release_model", "PLUGIN"], ["eval", "py/2d"], ["eval", "py/2d-samex"]]
@@ -672,6 +691,21 @@ def run_history(case, rec):
         rec.bucket("op:" + ("call_kernel" if op == "eval" and reqs[arg]["via"] == "call_kernel" else
                             "call_Fq" if op == "eval" and reqs[arg]["via"] == "call_Fq" else
                             reqs[arg]["via"] if op == "eval" else op))
+        if op == "churn":
+            import gc
+            for round_ in range(4):
+                for n_ in ("cyl@hs/mode0", "sph@hs/ck", "css@hs/ck", "cyl@hs/mode2beta"):
+                    tmp = State()
+                    got_ = evaluate(tmp, reqs[n_])
+                    exp_ = evaluate(State(), reqs[n_]) if lane_asan else table[n_]
+                    okc = (got_ == exp_)
+                    rec.check("same_bytes_as_fresh_process", okc,
+                              None if okc else {"step": step, "request": n_, "history": "products with other form factors built, "
+                                                "evaluated and dropped before (round %d)" % round_, "got": _floats(got_),
+                                                "fresh": _floats(exp_)}, key=_key(reqs[n_]))
+                    del tmp
+                    gc.collect()
+            continue
         if op == "eval":
             req = reqs[arg]
             snaps = []
